@@ -58,7 +58,7 @@ def run(ctx):
         raise core.MachineryFailure(f"C14: export incomplete {ctx.cov['records_enumerated']}")
     trees = pa.parse_export(rp)
     # (expressions on shipped leaves are vector valued: C16 evaluates them; here they are pickled at one operator level only)
-    trees = [it for it in trees if not it["ship"] or it["level"] <= 1]
+    trees = [it for it in trees if not (it["ship"] or it["konst"]) or it["level"] <= 1]
     trees.sort(key=lambda it: (it["level"], it["h"], pa.show(it["tree"])))
     ctx.cov["records_enumerated"]["parameter expressions"] = len(trees)
     small = ["options", "device", "mesh"]
@@ -126,14 +126,14 @@ def run(ctx):
     pwork = []
     for n, it in enumerate(trees):
         pwork.append({"tree": it["tree"]})
-        if not it["ship"] and (it["level"] <= 1 or n % (4 if quick else 2) == 0):
+        if not it["ship"] and not it["konst"] and (it["level"] <= 1 or n % (4 if quick else 2) == 0):
             pwork.append({"tree": it["tree"], "via": "solution", "slot": "applied_vector_potential" if n % 3 else "disorder_epsilon"})
     pjobs = [("call", dict(module="harness.persist", func="params_many", args={"items": c})) for c in chunks(pwork, 12)]
     # the same expressions on plain named functions of a driver script's __main__, saved in one process and loaded in a
     # fresh process / in a process where the names are rebound
     xwork = [{"tree": it["tree"], "methods": ["pickle", "cloudpickle"] + (["solution"] if n % 4 == 0 else []),
               "slot": "applied_vector_potential" if n % 8 else "disorder_epsilon"}
-             for n, it in enumerate(trees) if not it["twin"] and not it["ship"] and (it["level"] <= 1 or n % (3 if quick else 1) == 0)]
+             for n, it in enumerate(trees) if not it["twin"] and not it["ship"] and not it["konst"] and (it["level"] <= 1 or n % (3 if quick else 1) == 0)]
     pjobs += [("call", dict(module="harness.persist", func="params_crossproc", args={"items": c})) for c in chunks(xwork, 2 if quick else 8)]
     jobs += pjobs
     res = rf.replay_all(ctx, jobs)
